@@ -91,8 +91,10 @@ type opSpec struct {
 
 	Reload *reloadSpec `json:"reload,omitempty"`
 
-	// eject: per-worker bytes to release
+	// eject: per-worker bytes to release; with Pct set, Bytes is resolved at execution
+	// time to Pct percent of the largest per-worker buffered data size
 	Bytes int `json:"bytes,omitempty"`
+	Pct   int `json:"pct,omitempty"`
 }
 
 type colCase struct {
@@ -114,6 +116,7 @@ type fwdSpan struct {
 	Fields   map[string]any
 	Seq      int
 	ViaEvent bool // came through EnqueueEvent instead of EnqueueSpan
+	OpIndex  int  // index of the op during which the span was forwarded (len(ops) = drain/stop phase)
 }
 
 type accSpan struct {
@@ -128,6 +131,7 @@ type accSpan struct {
 	Size       int
 	DataSize   int
 	OpIndex    int
+	StressTrace bool  // the trace was first seen on the stress-relief path
 	Err        string // non-empty when AddSpan refused the span
 	// configuration in force when the span was handed over
 	CfgAt cfgSnapshot
@@ -167,6 +171,7 @@ type colObs struct {
 	Stopped     bool
 	StopAt      time.Duration
 	StopOp      int
+	BufferedAtStop []string // exact buffer contents read just before Stop was called
 	Panic       string // panic in the harness root goroutine (incl. bubble deadlock = leaked goroutines)
 	Hostname    string
 	Tick        time.Duration
@@ -180,6 +185,7 @@ type recTransmission struct {
 	mu    sync.Mutex
 	start time.Time
 	spans []fwdSpan
+	curOp int
 }
 
 func (r *recTransmission) snapshot(ev *types.Event, traceID string, isRoot bool, viaEvent bool) {
@@ -192,6 +198,7 @@ func (r *recTransmission) snapshot(ev *types.Event, traceID string, isRoot bool,
 		f.UID = u
 	}
 	r.mu.Lock()
+	f.OpIndex = r.curOp
 	f.Seq = len(r.spans)
 	r.spans = append(r.spans, f)
 	r.mu.Unlock()
@@ -277,6 +284,16 @@ func buildMockConfig(c cfgSpec) *config.MockConfig {
 		ParentIdFieldNames:     []string{"trace.parent_id"},
 		GetHoneycombAPIVal:     "http://honeycomb.test",
 	}
+}
+
+// vConfig fixes one slip of the test double: MockConfig.GetAddCountsToRoot returns
+// AddSpanCountToRoot, so the two options could not be set independently.
+type vConfig struct{ *config.MockConfig }
+
+func (v vConfig) GetAddCountsToRoot() bool {
+	v.Mux.RLock()
+	defer v.Mux.RUnlock()
+	return v.AddCountsToRoot
 }
 
 func (c cfgSpec) traceID(k int) string {
@@ -379,7 +396,8 @@ func execCase(c colCase, opt execOpts) (obs colObs) {
 }
 
 func runInBubble(c colCase, opt execOpts, obs *colObs) {
-	cfg := buildMockConfig(c.Cfg)
+	mock := buildMockConfig(c.Cfg)
+	cfg := vConfig{mock}
 	start := time.Now()
 	tx := &recTransmission{start: start}
 	peerTx := &recTransmission{start: start}
@@ -410,6 +428,9 @@ func runInBubble(c colCase, opt execOpts, obs *colObs) {
 		if stopped {
 			return
 		}
+		for _, w := range coll.VerifBufferedTraceIDs() {
+			obs.BufferedAtStop = append(obs.BufferedAtStop, w...)
+		}
 		stopped = true
 		obs.Stopped = true
 		obs.StopAt = time.Since(start)
@@ -437,12 +458,16 @@ func runInBubble(c colCase, opt execOpts, obs *colObs) {
 	snap := cfgSnapshot{AddReason: c.Cfg.AddReason, AddSpanCount: c.Cfg.AddSpanCount, AddCounts: c.Cfg.AddCounts, AddHost: c.Cfg.AddHost,
 		Attrs: copyAttrs(c.Cfg.Attrs), Sampler: c.Cfg.Sampler}
 	uidN := 0
+	stressFirst := map[int]bool{} // traces first seen on the stress-relief path
 
 	for i, op := range c.Ops {
 		if stopped {
 			break
 		}
 		now := time.Since(start)
+		tx.mu.Lock()
+		tx.curOp = i
+		tx.mu.Unlock()
 		switch op.Op {
 		case "span":
 			if m := models[op.Trace]; op.Late && m != nil {
@@ -482,8 +507,17 @@ func runInBubble(c colCase, opt execOpts, obs *colObs) {
 			}
 			a := accSpan{UID: uid, Trace: op.Trace, TraceID: tid, At: now, Kind: op.Kind, Via: op.Via, ClientRate: op.ClientRate, Keep: op.Keep,
 				Size: op.Size, DataSize: sp.GetDataSize(), OpIndex: i, CfgAt: snap}
+			// premise of C01/C04: stress relief does not switch while a trace is buffered. A trace whose
+			// first span came through the normal path therefore never takes the stress path.
+			if op.Via == "stress" {
+				if models[op.Trace] != nil {
+					a.Via = "incoming"
+				} else {
+					stressFirst[op.Trace] = true
+				}
+			}
 			var err error
-			switch op.Via {
+			switch a.Via {
 			case "peer":
 				err = coll.AddSpanFromPeer(sp)
 			case "stress":
@@ -496,7 +530,7 @@ func runInBubble(c colCase, opt execOpts, obs *colObs) {
 			}
 			obs.WorkerOf[tid] = coll.VerifWorkerFor(tid)
 			synctest.Wait()
-			if a.Err == "" && op.Via != "stress" {
+			if a.Err == "" && a.Via != "stress" && !stressFirst[op.Trace] {
 				m := models[op.Trace]
 				if m == nil {
 					m = newTraceModel(tid)
@@ -506,6 +540,7 @@ func runInBubble(c colCase, opt execOpts, obs *colObs) {
 				// need exactness re-derive it from observations. Here it only steers aims.
 				m.addBuffered(c.Cfg, now, op.Kind == "root")
 			}
+			a.StressTrace = stressFirst[op.Trace]
 			obs.Spans = append(obs.Spans, a)
 		case "advance":
 			d := time.Duration(op.D)*time.Millisecond + time.Duration(op.Ns)
@@ -571,7 +606,26 @@ func runInBubble(c colCase, opt execOpts, obs *colObs) {
 			}{i, now, snap})
 		case "eject":
 			e := ejectObs{OpIndex: i, At: now, Bytes: op.Bytes, Before: sortedBuf(coll.VerifBufferedTraceIDs())}
-			coll.VerifEject(op.Bytes)
+			if op.Pct > 0 {
+				sizeOf := map[string]int{}
+				for _, a := range obs.Spans {
+					if a.Err == "" && a.Via != "stress" {
+						sizeOf[a.TraceID] += a.DataSize
+					}
+				}
+				largest := 0
+				for _, w := range e.Before {
+					tot := 0
+					for _, id := range w {
+						tot += sizeOf[id]
+					}
+					if tot > largest {
+						largest = tot
+					}
+				}
+				e.Bytes = largest * op.Pct / 100
+			}
+			coll.VerifEject(e.Bytes)
 			synctest.Wait()
 			e.After = sortedBuf(coll.VerifBufferedTraceIDs())
 			obs.Ejects = append(obs.Ejects, e)
@@ -580,6 +634,9 @@ func runInBubble(c colCase, opt execOpts, obs *colObs) {
 		}
 	}
 
+	tx.mu.Lock()
+	tx.curOp = len(c.Ops)
+	tx.mu.Unlock()
 	if opt.Drain && !stopped {
 		// long enough for every deadline to pass and for the per-tick cap to drain the backlog
 		horizon := c.Cfg.traceTimeout()
